@@ -132,6 +132,10 @@ func (g *vgen) value(depth int) *jr.JS {
 		return &jr.JS{T: jr.TSym}
 	case 12:
 		g.lab("val:function")
+		if g.n("sharedfn", 0, 1) == 0 {
+			// a function from the catalogue: every occurrence in the value is the same function object
+			return &jr.JS{T: jr.TFunc, F: toJSONFns[g.n("sfn", 0, len(toJSONFns)-1)]}
+		}
 		return &jr.JS{T: jr.TFunc}
 	case 13:
 		g.lab("val:bigint")
